@@ -161,7 +161,7 @@ def run_reconnect(stream, script):
     return results, problems
 
 
-HOST_ACTIONS = ("reset", "write", "write-blocked")
+HOST_ACTIONS = ("reset", "write", "write-blocked", "is_connected", "is_connected-twice")
 
 
 def run_script(stream, script, write_fails_before=None, action=None):
@@ -190,6 +190,10 @@ def run_script(stream, script, write_fails_before=None, action=None):
                     d.reset()
                 elif action[1] == "write":
                     d.write(b"M105\n")
+                elif action[1].startswith("is_connected"):
+                    # the host polls the connection state (printcore does so in its loops): a query, not a read
+                    for _ in range(2 if action[1].endswith("twice") else 1):
+                        d.is_connected
                 else:
                     def reader():
                         results.append(d.readline())
@@ -410,7 +414,7 @@ def run(tier, seed):
                  f"every byte string over {{a, LF, CR}} of length <= {crlen} containing a CR and over {{a, LF, CR, NUL, FF, FS, 0x85, 0xff}} of length <= {exlen} containing one of the last five ({ncr} streams; only LF ends a line) x every composition x <= 1 no-data-yet answer; plus "
                  f"{len(longs)} long-stream fragmentations (8 streams up to 513 bytes x cyclic chunk-size patterns over {{1,2,100,255,256}}, "
                  "<= 1 'no data yet'); each script is run through the real Device (socket flavour, connect() with socket/selectors "
-                 "substituted) calling readline() until READ_EOF; for streams of <= 4 bytes additionally a failing write injected before each readline call, a second Device alive and reading in between, the same Device connected again after its first stream ended, and (scripts with <= 1 no-data-yet answer) one host action before each readline call: reset(), a successful write, a write that waits on a full send buffer while the reading thread performs one readline (the fake socket models timeout mode: a read that finds no data while settimeout(t > 0) is in force times out and the socket file refuses all later reads); distinct = distinct result sequences"),
+                 "substituted) calling readline() until READ_EOF; for streams of <= 4 bytes additionally a failing write injected before each readline call, a second Device alive and reading in between, the same Device connected again after its first stream ended, and (scripts with <= 1 no-data-yet answer) one host action before each readline call: reset(), one or two is_connected queries, a successful write, a write that waits on a full send buffer while the reading thread performs one readline (the fake socket models timeout mode: a read that finds no data while settimeout(t > 0) is in force times out and the socket file refuses all later reads); distinct = distinct result sequences"),
         "exhaustive": True,
         "exhaustive_note": "the stated script space is enumerated completely; streams outside it are not covered",
         "samples": [{"stream": "a\\na", "script": [[97], ["none", True], [10, 97]], "results": ["a\\n", "a", None]}],
